@@ -68,6 +68,7 @@ NextLegal == \E a \in Actions : Legal(s, a) /\ Step(a)
 Spec == Init /\ [][Next]_vars
 SpecLegal == Init /\ [][NextLegal]_vars
 
+RulesView == <<s.nodes.demands, s.vehicles.capacities, s.vehicles.positions, last, Min2(s.step_count, Horizon + 3)>>
 Live == ~last.pl /\ StepsDone(s) <= Horizon      \* states of the episode proper (up to and including its LAST)
 
 (* C03 *) Protocol == (last.type = FIRST <=> s.step_count = 1) /\ last.type \in {FIRST, MID, LAST}
@@ -84,7 +85,7 @@ Live == ~last.pl /\ StepsDone(s) <= Horizon      \* states of the episode proper
 (* C08 *) DenseTelescopes == Live => retD = Objective(MCInst, Routes(s))
 (* C08 *) DenseEqSparse == (Live /\ last.type = LAST /\ Completed(s)) => (retD = retS /\ retS = Objective(MCInst, Routes(s)))
 (* C08 *) SparseZeroUntilEnd == (Live /\ last.type # LAST) => retS = 0
-(* C09 *) Total == \A a \in Actions : Dests(s, a) # {}
+(* C09 *) Total == \A a \in Actions : Dests(s, a) # {} /\ Dests(s, a) = DestsByDefinition(s, a)
 (* C11 *) WithinHorizon == (~last.pl /\ StepsDone(s) >= Horizon) => last.type = LAST
 (* C11 *) EarlyLastIsCompletion == (Live /\ last.type = LAST /\ StepsDone(s) < Horizon) => Completed(s)
 (* C11 *) CompletionEnds == (Live /\ Completed(s) /\ s.step_count > 1) => last.type = LAST
